@@ -7,10 +7,10 @@
 from urllib.parse import urlencode
 
 from lxml import etree
-from lxml.etree import fromstring
 
 from zeep import ns, xsd
 from zeep.helpers import serialize_object
+from zeep.loader import parse_xml
 from zeep.wsdl.messages.base import ConcreteMessage, SerializedMessage
 from zeep.wsdl.utils import etree_to_string
 
@@ -116,7 +116,7 @@ class MimeContent(MimeMessage):
         )
 
     def deserialize(self, node):
-        node = fromstring(node)
+        node = parse_xml(node, self.wsdl.transport, settings=self.wsdl.settings)
         part = list(self.abstract.parts.values())[0]
         return part.type.parse_xmlelement(node)
 
@@ -158,7 +158,7 @@ class MimeXML(MimeMessage):
         raise NotImplementedError()
 
     def deserialize(self, node):
-        node = fromstring(node)
+        node = parse_xml(node, self.wsdl.transport, settings=self.wsdl.settings)
         part = next(iter(self.abstract.parts.values()), None)
         return part.element.parse(node, self.wsdl.types)
 
